@@ -22,6 +22,7 @@ RULE = ('histories of 6-30 parse/eval calls over a corpus of sources (literals i
         'sources; budgets ample, default and tight (around the need of the program); names fresh or persistent and shadowing builtins in some calls; after every eval the host '
         'mutates the returned lists/dicts (also nested) and the names mapping; cache kinds: dict, LRU(1), LRU(3), always-evicting, evict-on-read, pre-warmed by another parser. '
         'Non-trivial = a call whose outcome was compared between the cached and the uncached parser; distinct = distinct (cache kind, history prefix hash, call).')
+RULE += ' A share of the eval calls also passes ast_names trees parsed from identical texts by each parser itself.'
 ASSUMPTIONS = ['tree fingerprint = class name + vars() of every node, recursively (lists, tuples, nodes; leaf values by type and repr, container leaves by identity and contents)',
                'exception messages are compared after removing memory addresses']
 FINDINGS = {}
